@@ -82,6 +82,25 @@ func c01Features() []c01Feature {
 				PQuery{Name: "JournalRead", Cmd: ":many", SQL: fmt.Sprintf("SELECT * FROM %s_journal", t.Name)})
 			return true
 		}},
+		{"oddQuotedNames", func(r *Rng, p *Project) bool {
+			// quoted identifiers with characters that are not identifier characters, next to plain names made of the
+			// same words: either a diagnostic, or a package that compiles
+			if p.Engine == "mysql" || p.RawSchema != "" {
+				return false
+			}
+			switch r.Intn(3) {
+			case 0:
+				p.Tables = append(p.Tables, PTable{Name: "people", Cols: []PCol{{Name: "id", Type: "bigint", NotNull: true}, {Name: `"first-name"`, Type: "text"}, {Name: "first_name", Type: "text"}}})
+				p.Queries = append(p.Queries, PQuery{Name: "OddPeople", Cmd: ":many", SQL: `SELECT id, "first-name", first_name FROM people`})
+			case 1:
+				p.Tables = append(p.Tables, PTable{Name: `"audit-log"`, Cols: []PCol{{Name: "id", Type: "bigint", NotNull: true}}}, PTable{Name: "audit_log", Cols: []PCol{{Name: "id", Type: "bigint", NotNull: true}, {Name: "note", Type: "text"}}})
+				p.Queries = append(p.Queries, PQuery{Name: "OddAudit", Cmd: ":many", SQL: `SELECT id FROM "audit-log"`})
+			default:
+				p.Tables = append(p.Tables, PTable{Name: "places", Cols: []PCol{{Name: "id", Type: "bigint", NotNull: true}, {Name: "zip_code", Type: "text"}}})
+				p.Queries = append(p.Queries, PQuery{Name: "OddPlaces", Cmd: ":many", SQL: `SELECT zip_code, zip_code AS "zip code" FROM places`})
+			}
+			return true
+		}},
 		{"mixedCaseIdentifiers", func(r *Rng, p *Project) bool {
 			// quoted identifiers keep their capitals (ORM-style schemas): a single parameter made from such a
 			// column sits next to the type made from its table
@@ -365,9 +384,9 @@ func runC01(r *Rng, n int, tier string) {
 			k = 1 + r.Intn(2)
 		}
 		// the two features that describe ordinary, valid projects are applied on a fixed schedule of their own
-		benign := map[string]bool{"schemaHistory": true, "mixedCaseIdentifiers": true}
+		benign := map[string]bool{"schemaHistory": true, "mixedCaseIdentifiers": true, "oddQuotedNames": true}
 		for _, f := range feats {
-			if (f.name == "schemaHistory" && i%4 == 0) || (f.name == "mixedCaseIdentifiers" && i%4 == 2) {
+			if (f.name == "schemaHistory" && i%4 == 0) || (f.name == "mixedCaseIdentifiers" && i%4 == 2) || (f.name == "oddQuotedNames" && i%8 == 1) {
 				if f.apply(r, &p) {
 					tags = append(tags, "feat:"+f.name)
 				}
